@@ -16,16 +16,16 @@ def arrivalJ (x : Frame) (a : Arrival) : J :=
         ("flows", tableJ a.after),
         ("bufs", J.ofNats (a.after.pool.slots.map fun o => if o.isSome then 1 else 0))]
 
-def parseFrame (j : J) : Except String Frame := do
+def parseFrame (exactSig : Bool) (j : J) : Except String Frame := do
   pure { src := ← j.nat "src", dst := ← j.nat "dst", etype := ← j.nat "etype", key := ← j.nat "key",
-         full := (← j.nat "full") != 0, pay := ← j.nat "pay" }
+         full := frameFull exactSig ((← j.nat "l4") != 0), pay := ← j.nat "pay" }
 
 def parseLink (j : J) : Except String ((Nat × Nat) × (Nat × Nat)) := do
   match ← j.asNats with
   | [a, pa, b, pb] => pure ((a, pa), (b, pb))
   | _ => throw "link: four numbers expected"
 
-def stepNet (n : Net) (j : J) : Except String (Net × J) := do
+def stepNet (exactSig : Bool) (n : Net) (j : J) : Except String (Net × J) := do
   let k ← j.string "op"
   if k = "adv" then
     pure ((netStep 66 n (.adv (← j.nat "ms"))).1, J.mk [("k", J.str "adv")])
@@ -36,7 +36,7 @@ def stepNet (n : Net) (j : J) : Except String (Net × J) := do
     | none => throw "sweep: no such switch"
     | some s' => pure (n', J.mk [("k", J.str "sweep"), ("flows", tableJ s')])
   else if k = "rx" then
-    let x ← parseFrame j
+    let x ← parseFrame exactSig j
     let i ← j.nat "sw"
     if i ≥ n.sws.length then throw "rx: no such switch"
     let (n', log, ok) := netStep 66 n (.rx i (← j.nat "port") x)
@@ -44,11 +44,11 @@ def stepNet (n : Net) (j : J) : Except String (Net × J) := do
     pure (n', J.mk [("k", J.str "rx"), ("arr", J.arr (log.map (arrivalJ x)))])
   else throw s!"unknown op {k}"
 
-def runNet (n : Net) : List J → Except String (List J)
+def runNet (exactSig : Bool) (n : Net) : List J → Except String (List J)
   | [] => pure []
   | j :: js => do
-    let (n', o) ← stepNet n j
-    let os ← runNet n' js
+    let (n', o) ← stepNet exactSig n j
+    let os ← runNet exactSig n' js
     pure (o :: os)
 
 /-- request {"transparent":b,"t0":ms,"switches":[{"ports":n,"bufs":k}…],"links":[[a,pa,b,pb]…],"ops":[…]} → {"steps":[…]} -/
@@ -58,7 +58,8 @@ def handle (j : J) : Except String J := do
   let dip ← j.boolean "dropinport"
   let sws ← (← j.array "switches").mapM fun s => do pure (init (← s.nat "ports") (← s.nat "bufs") tr rl dip)
   let links ← (← j.array "links").mapM parseLink
-  let steps ← runNet { sws := sws, links := links, now := ← j.nat "t0" } (← j.array "ops")
+  let ex ← j.boolean "exactsig"          -- does the tree rank prerequisite-less wildcards as exact (repair D26; read by the harness)
+  let steps ← runNet ex { sws := sws, links := links, now := ← j.nat "t0" } (← j.array "ops")
   pure (J.mk [("steps", J.arr steps)])
 
 def main : IO Unit := serve handle
